@@ -229,7 +229,7 @@ def run_shard(desc, seed, rec, tier):
         for f in rec.triage(check_consts(rec)):
             rec.violation(f)
     elif part == "values":
-        drive(rec, vals.immutables(surrogates=False), lambda spec: check_value(spec, rec), desc["n"], seed)
+        drive(rec, vals.immutables(surrogates=True), lambda spec: check_value(spec, rec), desc["n"], seed)
     elif part == "packets":
         drive(rec, packets(), lambda c: check_packet(c, rec), desc["n"], seed)
     elif part == "conv":
